@@ -38,6 +38,8 @@ pub enum Un {
     Map,
     ScaleHalf,
     ScaleNeg,
+    ScaleZero,
+    ScaleOne,
     Offset,
     ScalePC,
     OffsetPC,
@@ -58,7 +60,7 @@ pub enum Node {
     B(Bin, Box<Node>, Box<Node>),
 }
 
-pub const UNARY: [Un; 11] = [Un::Map, Un::ScaleHalf, Un::ScaleNeg, Un::Offset, Un::ScalePC, Un::OffsetPC, Un::Clip, Un::Inspect, Un::Delay(0), Un::Delay(1), Un::Delay(2)];
+pub const UNARY: [Un; 13] = [Un::Map, Un::ScaleHalf, Un::ScaleNeg, Un::ScaleZero, Un::ScaleOne, Un::Offset, Un::ScalePC, Un::OffsetPC, Un::Clip, Un::Inspect, Un::Delay(0), Un::Delay(1), Un::Delay(2)];
 pub const BINARY: [Bin; 3] = [Bin::Add, Bin::Mul, Bin::Zip];
 
 impl Node {
@@ -76,6 +78,8 @@ impl Node {
                     Un::Map => "map".to_string(),
                     Un::ScaleHalf => "scale_half".into(),
                     Un::ScaleNeg => "scale_neg".into(),
+                    Un::ScaleZero => "scale_zero".into(),
+                    Un::ScaleOne => "scale_one".into(),
                     Un::Offset => "offset".into(),
                     Un::ScalePC => "scale_pc".into(),
                     Un::OffsetPC => "offset_pc".into(),
@@ -181,6 +185,8 @@ fn parse_node(s: &str) -> Option<(Node, &str)> {
         "map" => Un::Map,
         "scale_half" => Un::ScaleHalf,
         "scale_neg" => Un::ScaleNeg,
+        "scale_zero" => Un::ScaleZero,
+        "scale_one" => Un::ScaleOne,
         "offset" => Un::Offset,
         "scale_pc" => Un::ScalePC,
         "offset_pc" => Un::OffsetPC,
@@ -275,6 +281,39 @@ macro_rules! fr_float {
         }
     };
 }
+/// wide integer families: values and the clip threshold need more significant bits than the
+/// Float companion's mantissa (24 for i32/f32, 53 for i64/f64)
+macro_rules! fr_wide {
+    ($T:ty, $N:expr, $name:expr, $FT:ty, $scale:expr, $clip:expr) => {
+        impl Fr for [$T; $N] {
+            const NAME: &'static str = $name;
+            fn coded(id: usize, n: usize) -> Self {
+                core::array::from_fn(|c| ((((n + 1) * 3 + id * 7 + c * 5) % 41) as $T - 20) * $scale + 1)
+            }
+            fn offset() -> $T {
+                3
+            }
+            fn clip_t() -> $T {
+                $clip
+            }
+            fn offset_pc() -> [$T; $N] {
+                core::array::from_fn(|c| c as $T - 1)
+            }
+            fn scale_pc() -> [$FT; $N] {
+                core::array::from_fn(|c| [0.5, -1.0, 0.25][c % 3])
+            }
+            fn map_fn(f: Self) -> Self {
+                f.scale_amp(0.5).offset_amp(1)
+            }
+            fn zip_fn(a: Self, b: Self) -> Self {
+                core::array::from_fn(|c| if c % 2 == 0 { a[c] } else { b[c] })
+            }
+        }
+    };
+}
+fr_wide!(i32, 2, "[i32;2]", f32, 12_345_677, 123_456_789);
+fr_wide!(i64, 1, "[i64;1]", f64, 12_345_678_901_234_567, 123_456_789_012_345_678);
+fr_float!(f64, 1, "[f64;1]");
 fr_float!(f32, 2, "[f32;2]");
 fr_float!(f32, 3, "[f32;3]");
 fr_float!(f64, 2, "[f64;2]");
@@ -374,6 +413,8 @@ fn un_model<F: Fr>(u: Un, m: Model<F>, h: usize) -> Model<F> {
         Un::Map => pt(&F::map_fn),
         Un::ScaleHalf => pt(&|f| f.scale_amp(gain::<F>(0.5))),
         Un::ScaleNeg => pt(&|f| f.scale_amp(gain::<F>(-1.0))),
+        Un::ScaleZero => pt(&|f| f.scale_amp(gain::<F>(0.0))),
+        Un::ScaleOne => pt(&|f| f.scale_amp(gain::<F>(1.0))),
         Un::Offset => pt(&|f| f.offset_amp(F::offset())),
         Un::ScalePC => pt(&|f| f.mul_amp(F::scale_pc())),
         Un::OffsetPC => pt(&|f| f.add_amp(F::offset_pc())),
@@ -475,6 +516,8 @@ fn un_build<'a, F: Fr>(u: Un, child: Dyn<'a, F>, w: &mut Watch, delay_above: usi
         Un::Map => Dyn(Box::new(child.map(F::map_fn))),
         Un::ScaleHalf => Dyn(Box::new(child.scale_amp(gain::<F>(0.5)))),
         Un::ScaleNeg => Dyn(Box::new(child.scale_amp(gain::<F>(-1.0)))),
+        Un::ScaleZero => Dyn(Box::new(child.scale_amp(gain::<F>(0.0)))),
+        Un::ScaleOne => Dyn(Box::new(child.scale_amp(gain::<F>(1.0)))),
         Un::Offset => Dyn(Box::new(child.offset_amp(F::offset()))),
         Un::ScalePC => Dyn(Box::new(child.scale_amp_per_channel(F::scale_pc()))),
         Un::OffsetPC => Dyn(Box::new(child.offset_amp_per_channel(F::offset_pc()))),
